@@ -31,6 +31,10 @@ pub struct Case {
     pub reopen_at: Option<u16>,
     pub reopen_async: bool,
     pub asyncw: bool,
+    /// 1-4: the intermediate save of history B uses this internal compression (and another tile type); the
+    /// original settings are set again after the reopen, so both histories still end in the same state
+    #[serde(default)]
+    pub detour_internal: u8,
 }
 
 enum Step {
@@ -122,6 +126,12 @@ fn run_b(c: &Case) -> Result<Vec<u8>, Fail> {
     let mut reopened = false;
     for (k, st) in steps.iter().enumerate() {
         if Some(k) == cut {
+            if (1..=4).contains(&c.detour_internal) {
+                let mut f = c.l.fields();
+                f.internal = c.detour_internal;
+                f.tile_type = (f.tile_type + 1) % 5;
+                a.set_fields(&f);
+            }
             let bytes = guarded("to_writer", || a.write())?.map_err(|e| Fail::new("C16/write-err", format!("{e}")))?;
             // the handle kind decides the writer kind: keep it equal to history A's
             a = match (c.asyncw, c.reopen_async) {
@@ -178,11 +188,50 @@ fn check(c: &Case) -> CaseResult {
     let more_than_order = !c.detours.is_empty() || c.reopen_at.is_some();
     Ok(Meta::new(l.tiles.len() >= 3 && dup && more_than_order)
         .label(c.reopen_at.is_some(), "reopen-in-between")
+        .label(c.reopen_at.is_some() && (1..=4).contains(&c.detour_internal) && c.detour_internal != l.settings.internal, "intermediate-save-under-another-compression")
         .label(!c.detours.is_empty(), "detours")
         .label(dup, "dup-content")
         .label(c.asyncw, "writer-async")
         .label(super::c01::spilled(&a_bytes), "leaf-spill")
         .label(true, super::c01::codec_label(l.settings.internal)))
+}
+
+
+// ---- tiles in a foreign backing archive vs the same tiles in memory ----------------------
+
+#[derive(Clone, Debug, Serialize, Deserialize)]
+pub struct FCase {
+    pub l: crate::spec::writer::Layout,
+    pub asyncw: bool,
+}
+
+/// A spec-valid archive from another writer, opened and saved (all tiles served by the backing reader), must give
+/// the bytes of an archive with the same tiles, metadata and settings that was built in memory.
+fn check_foreign(c: &FCase) -> CaseResult {
+    let b = crate::spec::writer::build(&c.l);
+    let total: u64 = b.expected.values().map(|(_, n)| u64::from(*n)).sum();
+    if total > 24 << 20 || b.expected.len() > 20_000 {
+        return Ok(Meta::new(false).label(true, "foreign-archive-too-big-skipped"));
+    }
+    let opened = guarded("open", || if c.asyncw { Arch::open_async(b.bytes.clone()) } else { Arch::open_sync(b.bytes.clone()) })?.map_err(|e| Fail::new("C16/open-err", format!("{e}")))?;
+    let fields = opened.fields();
+    let backed = guarded("to_writer", || opened.write())?.map_err(|e| Fail::new("C16/write-err", format!("{e}")))?;
+    let mut mem = if c.asyncw { Arch::new_async() } else { Arch::new_sync() };
+    mem.set_fields(&fields);
+    for (id, (off, len)) in &b.expected {
+        mem.add(*id, b.bytes[*off as usize..*off as usize + *len as usize].to_vec()).map_err(|e| Fail::new("C16/harness", format!("{e}")))?;
+    }
+    let in_memory = guarded("to_writer", || mem.write())?.map_err(|e| Fail::new("C16/write-err", format!("{e}")))?;
+    if backed != in_memory {
+        fail!("C16/backed-differs-from-in-memory/foreign-source", "the archive re-saved from its (foreign) backing archive and the same archive built in memory serialise differently: {}", first_diff(&backed, &in_memory));
+    }
+    let f = &b.facts;
+    Ok(Meta::new(b.expected.len() >= 2)
+        .label(true, "tiles-in-foreign-backing-archive")
+        .label(f.prefix_overlap, "same-offset-different-length")
+        .label(f.shared_offset, "shared-offset")
+        .label(c.asyncw, "writer-async")
+        .label(true, super::c01::codec_label(c.l.internal)))
 }
 
 // ---- cross-process ---------------------------------------------------------------------
@@ -236,24 +285,33 @@ fn strategy(g: Gen) -> impl Strategy<Value = Case> {
         any::<u16>().prop_map(Detour::Lookup),
         any::<u16>().prop_map(Detour::Lookup),
     ];
-    (logical::logical(g), any::<u32>(), proptest::collection::vec(det, 0..5), proptest::option::weighted(0.5, any::<u16>()), any::<bool>(), any::<bool>())
-        .prop_map(|(l, seed2, detours, reopen_at, reopen_async, asyncw)| Case { l, seed2, detours, reopen_at, reopen_async, asyncw })
+    (logical::logical(g), any::<u32>(), proptest::collection::vec(det, 0..5), proptest::option::weighted(0.5, any::<u16>()), any::<bool>(), any::<bool>(), prop_oneof![2 => Just(0u8), 1 => 1u8..=4])
+        .prop_map(|(l, seed2, detours, reopen_at, reopen_async, asyncw, detour_internal)| Case { l, seed2, detours, reopen_at, reopen_async, asyncw, detour_internal })
 }
 
 pub fn run(ctx: &Ctx) {
     ctx.rec.set_rule(
         "logical archive recipes (as C01) x a second history reaching the same state: another insertion permutation, detours (junk id added and removed, wrong content \
-         first, the same content under another id that is removed again, remove and re-add), optional save+reopen in the middle (tiles reader-backed on one side only) x 4 \
-         internal compressions x sync / async writer (each against itself); the same history twice; rewrite of a just-read archive; large archives with leaf spill; and \
+         first, the same content under another id that is removed again, remove and re-add), optional save+reopen in the middle (tiles reader-backed on one side only; the intermediate save optionally under another internal compression and tile type, \
+         the original settings restored afterwards) x 4 \
+         internal compressions x sync / async writer (each against itself); the same history twice; rewrite of a just-read archive; foreign layouts (C03's generator: undeduplicated, reverse-ordered, prefix-overlapping tile data, runs, leaves) \
+         opened and saved against the same tiles, metadata and settings built in memory; large archives with leaf spill; and \
          cross-process: the recipe is serialised by two freshly spawned `vcheck emit` processes. Oracle: byte equality. Non-trivial: >= 3 tiles with a duplicated content and \
          histories that differ in more than order, or a cross-process case; distinct by digest.",
     );
     let g = Gen { max_tiles: ctx.tier.pick(200, 600), allow_big: false, allow_adv: false, full_floats: !ctx.excluded("C16/rewrite-differs/full-float") };
     run_proptest(ctx, "history-pairs", PtCfg::new(ctx.lanes, ctx.tier.pick(1200, 60_000)), || strategy(g), check);
     let big: Vec<Case> = (0..ctx.tier.pick(4, 16))
-        .map(|i| Case { l: logical::large(18_000 + 1500 * i, 5000 + i as u64, 1 + (i % 4) as u8), seed2: 99 + i as u32, detours: vec![Detour::Junk(3, 4), Detour::Alias(9, 9), Detour::ReAdd(500)], reopen_at: if i % 2 == 0 { Some(30000) } else { None }, reopen_async: false, asyncw: i % 3 == 2 })
+        .map(|i| Case { l: logical::large(18_000 + 1500 * i, 5000 + i as u64, 1 + (i % 4) as u8), seed2: 99 + i as u32, detours: vec![Detour::Junk(3, 4), Detour::Alias(9, 9), Detour::ReAdd(500)], reopen_at: if i % 2 == 0 { Some(30000) } else { None }, reopen_async: false, asyncw: i % 3 == 2, detour_internal: (i % 5) as u8 })
         .collect();
     run_list(ctx, "history-pairs-large", &big, check);
+    run_proptest(
+        ctx,
+        "foreign-backing-archive-vs-in-memory",
+        PtCfg::new(ctx.lanes, ctx.tier.pick(150, 4000)),
+        || (crate::model::layout::layout(crate::model::layout::LGen { max_entries: ctx.tier.pick(120, 600), big_runs: false }), any::<bool>()).prop_map(|(l, asyncw)| FCase { l, asyncw }),
+        check_foreign,
+    );
     // cross-process
     let n = ctx.tier.pick(24, 200);
     let xs: Vec<XCase> = (0..n)
@@ -268,7 +326,7 @@ pub fn run(ctx: &Ctx) {
         .collect();
     let idx = std::sync::atomic::AtomicUsize::new(0);
     run_list(ctx, "cross-process", &xs, |c| check_cross(ctx, c, idx.fetch_add(1, std::sync::atomic::Ordering::Relaxed)));
-    for c in ["reopen-in-between", "detours", "dup-content", "writer-async", "cross-process", "leaf-spill"] {
+    for c in ["reopen-in-between", "detours", "dup-content", "writer-async", "cross-process", "leaf-spill", "tiles-in-foreign-backing-archive", "same-offset-different-length"] {
         ctx.rec.floor(c, 4);
     }
 }
@@ -276,6 +334,7 @@ pub fn run(ctx: &Ctx) {
 pub fn replay(sub: &str, case: &Value) -> Option<CaseResult> {
     match sub {
         "history-pairs" | "history-pairs-large" => Some(check(&super::de(case)?)),
+        "foreign-backing-archive-vs-in-memory" => Some(check_foreign(&super::de(case)?)),
         "cross-process" => {
             let c: XCase = super::de(case)?;
             let a = super::c01::write_logical(&c.l, c.asyncw).ok()?;
